@@ -10,6 +10,38 @@ mod protocol;
 mod util;
 mod widgets;
 
+/// Counting allocator: current and peak live bytes (C15/C17 allocation bounds).
+pub struct Counting;
+pub static LIVE: std::sync::atomic::AtomicUsize = std::sync::atomic::AtomicUsize::new(0);
+pub static PEAK: std::sync::atomic::AtomicUsize = std::sync::atomic::AtomicUsize::new(0);
+unsafe impl std::alloc::GlobalAlloc for Counting {
+    unsafe fn alloc(&self, l: std::alloc::Layout) -> *mut u8 {
+        use std::sync::atomic::Ordering::Relaxed;
+        let p = unsafe { std::alloc::System.alloc(l) };
+        if !p.is_null() {
+            let live = LIVE.fetch_add(l.size(), Relaxed) + l.size();
+            PEAK.fetch_max(live, Relaxed);
+        }
+        p
+    }
+    unsafe fn dealloc(&self, p: *mut u8, l: std::alloc::Layout) {
+        LIVE.fetch_sub(l.size(), std::sync::atomic::Ordering::Relaxed);
+        unsafe { std::alloc::System.dealloc(p, l) }
+    }
+}
+#[global_allocator]
+static GLOBAL: Counting = Counting;
+
+pub fn peak_reset() -> usize {
+    use std::sync::atomic::Ordering::Relaxed;
+    let live = LIVE.load(Relaxed);
+    PEAK.store(live, Relaxed);
+    live
+}
+pub fn peak_since(base: usize) -> usize {
+    PEAK.load(std::sync::atomic::Ordering::Relaxed).saturating_sub(base)
+}
+
 fn main() {
     let args: Vec<String> = std::env::args().collect();
     if args.len() < 3 {
